@@ -17,8 +17,8 @@
 (*   c.real[r].wpos[q]      [kk, u, out]: Wyckoffpos of the point u/(kk*D)          *)
 (*   c.real[r].addb[q]      [kk, u, order, rots, natoms]: Crystal.addbasis of the   *)
 (*                           reported equivalent positions of u                     *)
-(*   c.H (optional, sweep)  the subgroup of the holohedry the origin's site         *)
-(*                           symmetry was constructed to be                         *)
+(*   c.sweep, c.H           sweep worlds (GenSiteSym): the subgroup of the holohedry *)
+(*                           the origin's site symmetry was constructed to be       *)
 (* The stabilisers, orbits and invariant-space dimensions are computed here from    *)
 (* the definitions in World / Sites; the library's values are only compared.        *)
 EXTENDS Sites, Json, IOUtils
